@@ -177,8 +177,66 @@ def method_call_facts(prog: Program, interp: Interp, r: DispatcherRoles) -> Tupl
         for c in calls_in(n):
             if isinstance(c.func, ast.Name) and c.func.id in bound_vars:
                 invoke.append((n, c))
+    # a lookup made through something that remembers earlier answers (a memoised helper, an lru_cache object built over registry.get)
+    # is still a lookup — and a finding: the registry can change between requests
+    cached_lookup: List[Tuple[Node, ast.Call, str]] = []
+    if len(lookup) < 1:
+        from ..effects import is_memo_decorated
+        init_caches: Dict[str, str] = {}
+        for c_ in prog.mro(r.cls):
+            if isinstance(c_, ClassInfo) and '__init__' in c_.methods:
+                for st in walk_own(c_.methods['__init__'].node):
+                    if isinstance(st, ast.Assign) and len(st.targets) == 1 and isinstance(st.targets[0], ast.Attribute) and \
+                            dotted(st.targets[0].value) == 'self' and isinstance(st.value, ast.Call) and 'cache' in norm(st.value.func) and \
+                            any('_registry' in norm(a) for a in st.value.args):
+                        init_caches[st.targets[0].attr] = norm(st.value)
+        for n in cfg.stmt_nodes():
+            for c in calls_in(n):
+                if isinstance(c.func, ast.Attribute) and dotted(c.func.value) == 'self' and c.func.attr in init_caches:
+                    cached_lookup.append((n, c, f'`self.{c.func.attr}` is `{init_caches[c.func.attr][:70]}`'))
+                    continue
+                for k, o in ty.callees(c, sc):
+                    if k == 'func' and isinstance(o, FuncInfo) and is_memo_decorated(prog, o) and \
+                            any(isinstance(x, ast.Attribute) and x.attr == '_registry' for x in walk_own(o.node)):
+                        cached_lookup.append((n, c, f'{short(o.qualname)} is memoised (lru_cache / cache)'))
+        for n, c, why_ in cached_lookup:
+            lookup.append((n, c))
+            problems.append(('LOOKUP-EXACT', 'method lookup answered from a cache', n.line,
+                             f'`{norm(c)[:70]}`: {why_}: a name that was looked up once keeps its first answer, so a method registered (or '
+                             f'replaced) later is not the one that runs — "method not found" for a registered method, or the old function'))
+    if cached_lookup and not bind:
+        # the cache object hides the type of what it returns: the bind call is the `.bind(...)` on the variable holding the lookup
+        lvars = {t.id for n, c, _ in cached_lookup if isinstance(n.ast, ast.Assign) for t in n.ast.targets if isinstance(t, ast.Name)}
+        for n in cfg.stmt_nodes():
+            for c in calls_in(n):
+                if isinstance(c.func, ast.Attribute) and c.func.attr == 'bind' and dotted(c.func.value) in lvars:
+                    bind.append((n, c))
+                    if isinstance(n.ast, ast.Assign) and len(n.ast.targets) == 1 and isinstance(n.ast.targets[0], ast.Name):
+                        bound_vars.add(n.ast.targets[0].id)
+        for n in cfg.stmt_nodes():
+            for c in calls_in(n):
+                if isinstance(c.func, ast.Name) and c.func.id in bound_vars and (n, c) not in invoke:
+                    invoke.append((n, c))
     if len(lookup) < 1 or len(bind) < 1:
         raise AnalysisError(f'{f.qualname}: registry lookup / bind call not found')
+    # the method that is bound is the registry's current answer: every value reaching the receiver of bind() is a registry lookup
+    from ..flow import Flow as _FlowL
+    fl_l = _FlowL(cfg)
+    lookup_calls = {id(c) for _, c in lookup}
+    for bn, bc in bind:
+        recv = bc.func.value if isinstance(bc.func, ast.Attribute) else None
+        if recv is None:
+            continue
+        for al in fl_l.alts(bn, recv):
+            v = al.expr
+            if isinstance(v, ast.Await):
+                v = v.value
+            if id(v) in lookup_calls or isinstance(v, ast.Constant):
+                continue
+            if isinstance(v, ast.Call) or isinstance(v, ast.Subscript):
+                problems.append(('LOOKUP-EXACT', f'bound method taken from `{norm(v)[:50]}`', bn.line,
+                                 f'the method that is bound can come from `{norm(v)[:80]}` instead of the registry lookup: answers remembered '
+                                 f'outside the registry do not follow later registrations under the same name'))
     facts['lookup'] = [norm(c).replace('await ', '') for _, c in lookup]
     facts['bind'] = [norm(c) for _, c in bind]
     facts['invoke_sites'] = len(invoke)
@@ -268,7 +326,16 @@ def method_call_facts(prog: Program, interp: Interp, r: DispatcherRoles) -> Tupl
         direct = [(n, x) for n, _ in invoke for frag in node_exprs(n) for x in walk_no_defs(frag)
                   if isinstance(x, ast.Await) and isinstance(x.value, ast.Call) and isinstance(x.value.func, ast.Name) and x.value.func.id in bound_vars]
         facts['await_decision'] = 'none'
-        if direct:
+        for n, x in direct:
+            for g in guard_edges(cfg, n):
+                c_ = g.src.ast
+                if isinstance(c_, ast.Call) and ('coroutine' in (dotted(c_.func) or '') or 'awaitable' in (dotted(c_.func) or '')):
+                    facts['await_decision'] = norm(c_)
+                    problems.append(('ONCE-INVOKE', 'await decided by a property of the callable, not by the returned object', n.line,
+                                     f'`{norm(x)}` runs only when `{norm(c_)}`: a method that returns a coroutine without being a coroutine function '
+                                     f'(an async def behind a plain decorator, an object with async __call__) takes the other branch and is never '
+                                     f'awaited — its body does not run, a notification is silently dropped and a call gets a coroutine object as result'))
+        if direct and facts['await_decision'] == 'none':
             facts['await_decision'] = 'always'
         for n, x in awaits:
             from ..flow import Flow
@@ -548,6 +615,11 @@ def batch_facts(prog: Program, r: DispatcherRoles) -> Tuple[Dict[str, Any], List
             raw_conds.append(cnd)
     # a guard on the decoded document under a list test (before deserialisation) is a batch guard as well
     main_conds = main_conds or raw_conds
+    if len(main_conds) > 1:
+        # several length comparisons: the batch LIMIT is the one compared with the configured option
+        with_limit = [c for c in main_conds if 'max_batch' in norm(c.ast)]
+        if len(with_limit) == 1:
+            main_conds = with_limit
     raw_subjects = {dotted(x.args[0]) for c in raw_conds for x in ast.walk(c.ast)
                     if isinstance(x, ast.Call) and dotted(x.func) == 'len' and x.args and dotted(x.args[0])}
     facts['size_guard'] = [_norm_size(c.ast, req_vars) for c in (main_conds or size_conds)]
